@@ -224,7 +224,16 @@ fn scenario(ctx: &Ctx, idx: u64) -> Report {
                     let age = r.started.saturating_sub(ann);
                     let expected = nodes[a].expected();
                     let found = yielded.contains(&expected);
-                    if r.started >= ann && age + EPS < DAY {
+                    // announce_peer is fire-and-forget: the announcing stream closes when the
+                    // announces are *sent*; they reach the storing nodes up to one network latency
+                    // later. A search that starts inside that window races the announce datagrams
+                    // and gives no verdict (counted and reported).
+                    if r.started >= ann && r.started < ann + max_lat + 100 * MS {
+                        report.count("searches_racing_the_announce_datagrams_no_verdict");
+                        if !found {
+                            report.count("searches_racing_the_announce_datagrams_that_missed_the_announcer");
+                        }
+                    } else if r.started >= ann && age + EPS < DAY {
                         report.count("must_find_checks");
                         if age > 15 * MIN {
                             report.count("must_find_checks_after_15_min");
@@ -510,6 +519,7 @@ pub fn check(tier: Tier) -> Check {
         assumptions: vec![
             "round trips stay below the node's 1.5 s query timeout (one-way latency < 0.7 s): C04 states that later answers may be missed, so 'loss-free' is read as 'answers arrive in time'",
             "schedules are sampled; virtual time makes 24 h histories run in seconds",
+            "'once the announcing search has ended' is read as 'once its announce_peer datagrams have been delivered': the stream closes when they are sent, so searches starting within one network latency of that instant race them and give no verdict (their number, and how many of them missed the announcer, is reported)",
         ],
         deciding: vec!["C01"],
         streams: vec![
